@@ -167,7 +167,8 @@ class LangGen:
         if cfg['vars']:
             for a in names:
                 if rng.random() < 0.4:
-                    vn = 'v' + a.lower()
+                    # the same name may be declared by types that are not on one inheritance chain (no shadowing along a chain)
+                    vn = 'vx' if rng.random() < 0.5 and 'vx' not in st.variables(a) else 'v' + a.lower()
                     e = self.expr(st, a, rng.randint(1, 2), allow_var=True, final=False)
                     if e is not None:
                         st.assets[a]['variables'].append({'name': vn, 'stepExpression': e[0]})
